@@ -39,9 +39,13 @@ man = {
            "source_commits": [], "add_only": True},
  "engines": [{"name": "sa", "path": "/verif/sa", "serves_properties": [c["property_id"] for c in checks],
               "kind_free_text": "repository-specific static analyses in pure python ast: repo model + call graph, structured CFG with exceptional exits "
-                                "(typestate / swap-restore), abstract interpreter with dimension, frame, linearity and origin lattices, table cross-checkers"}],
+                                "(typestate / swap-restore), abstract interpreter with dimension, frame, linearity, layout and origin lattices, length evaluation over "
+                                "input-length orderings, table cross-checkers; two-view decision (plain tree, then a behaviour-preserving normal form with new helpers, "
+                                "closures, context managers, record classes, property factories and constants folded back - DESIGN.md section 20)"}],
  "checks": checks,
- "notes": "static analysis only: no check imports or runs magpylib. Partial claims: each check decides the structural clause(s) named in level_claimed.text; see DESIGN.md.",
+ "notes": "static analysis only: no check imports or runs magpylib. Partial claims: each check decides the structural clause(s) named in level_claimed.text; see DESIGN.md. "
+          "The thorough tier adds the self-validation of the checker: must-fire mutants and detected seeds, and 225 independent behaviour-preserving refactorings (/verif/twins) "
+          "that must stay silent.",
  "not_applicable": na,
 }
 json.dump(man, open(os.path.join(V, "MANIFEST.json"), "w"), indent=1)
